@@ -3,7 +3,7 @@
    nextRead never dangles. *)
 From Coq Require Import List NArith Bool Arith Lia ZifyN ZifyNat ZifyBool.
 Import ListNotations.
-From GM Require Import Base.Topic Base.Msg Model.SubTrie Model.RetTrie Model.FedQueue Oracle.C16O.
+From GM Require Import Base.Topic Base.Msg Model.SubTrie Model.SubSpec Model.RetTrie Model.FedQueue Oracle.C16O Proofs.SubTrieP.
 Open Scope N_scope.
 
 (* ------------------------------------------------------------------ *)
@@ -708,3 +708,902 @@ Qed.
 
 Lemma fed_op_core s o : core (fed_op s o) = core s /\ fb_ret (fed_op s o) = fb_ret s /\ published (fed_op s o) = published s.
 Proof. unfold fed_op, core. sfields. auto. Qed.
+
+Lemma INV_clean_resync s p evs :
+  INV s -> st_up s = false -> a_peer s = Some p -> fb_peer s = true ->
+  let s1 := fed_op s (OUnsubAll NODE_A) in
+  let s1c := set_server (fb_peer s1) (Some {| fs_id := p_sid p; fs_next := 0; fs_seen := [] |})
+                        (fb_fed s1) (fb_ret s1) (fb_ops s1) (applied s1) (published s1) s1 in
+  let s2 := emit_list evs (set_peer (Some {| p_sid := p_sid p; p_q := eq_clear (p_q p) |})
+                                    (a_sidctr s1c) (a_epoch s1c + 1) (emitted s1c) s1c) in
+  INV s2 /\ st_up s2 = false /\ (exists p2, a_peer s2 = Some p2 /\ p_sid p2 = p_sid p) /\
+  fb_sess s2 = Some {| fs_id := p_sid p; fs_next := 0; fs_seen := [] |} /\
+  kcore s2 = (Some (p_sid p), true, Some (p_sid p), a_sidctr s).
+Proof.
+  intros H Hup Hp Hbp. cbv zeta.
+  match goal with |- INV (emit_list evs ?X) /\ _ => set (sC := X) end.
+  assert (HC : INV sC).
+  { apply INV_core with (s := set_peer (Some {| p_sid := p_sid p; p_q := eq_clear (p_q p) |}) (a_sidctr s) (a_epoch s + 1) (emitted s)
+         (set_server true (Some {| fs_id := p_sid p; fs_next := 0; fs_seen := [] |}) (db_step (fb_fed s) (OUnsubAll NODE_A))
+                     (fb_ret s) (fb_ops s ++ [OUnsubAll NODE_A]) (applied s) (published s) s)).
+    - subst sC. unfold core, fed_op. sfields. now rewrite Hbp.
+    - now apply INV_clean. }
+  destruct (kcore_emit_list evs sC) as (Hk & Hu & Hs).
+  split; [now apply INV_emit_list|]. split; [rewrite Hu; subst sC; sfields; exact Hup|].
+  assert (HkC : kcore sC = (Some (p_sid p), true, Some (p_sid p), a_sidctr s)).
+  { subst sC. unfold kcore, fed_op. sfields. now rewrite Hbp. }
+  split.
+  { rewrite HkC in Hk. unfold kcore in Hk. injection Hk as Hk1 _ _ _.
+    destruct (a_peer (emit_list evs sC)) as [p2|]; [|discriminate]. exists p2. split; [reflexivity|].
+    cbn [option_map] in Hk1. congruence. }
+  split; [rewrite Hs; subst sC; reflexivity|]. now rewrite Hk.
+Qed.
+Ltac clean_branch fo s p H Hup Hp Hbps Hctr :=
+  let HI := fresh "HI" in let Hu2 := fresh "Hu2" in let p2 := fresh "p2" in let Hp2 := fresh "Hp2" in
+  let Hsid2 := fresh "Hsid2" in let Hse2 := fresh "Hse2" in let Hk2 := fresh "Hk2" in
+  let HI' := fresh "HI'" in let HK' := fresh "HK'" in
+  match goal with |- context [emit_list ?evs _] =>
+    destruct (INV_clean_resync s p evs H Hup Hp Hbps) as (HI & Hu2 & (p2 & Hp2 & Hsid2) & Hse2 & Hk2) end;
+  cbv zeta in HI, Hu2, Hp2, Hse2, Hk2; rewrite Hp2;
+  assert (Hid2 : (p_sid p =? p_sid p2) = true) by (apply N.eqb_eq; congruence);
+  destruct (INV_hello_tail fo _ p2 _ HI Hu2 Hp2 Hse2 Hid2) as [HI' HK'];
+  cbv zeta in HI', HK'; cbn [fs_next] in HI', HK';
+  split; [exact HI'|rewrite HK', Hk2, Hctr; reflexivity].
+
+Lemma INV_reconnect mode order s0 :
+  INV s0 ->
+  (mode = HsLostResp -> is_some (a_peer s0) = true -> fb_peer s0 = true -> matched s0 = true) ->
+  INV (fq_reconnect mode order s0) /\
+  kcore (fq_reconnect mode order s0) =
+    (if match mode with HsLostReq => false | _ => true end && is_some (a_peer s0) && fb_peer s0
+     then (option_map p_sid (a_peer s0), true, option_map p_sid (a_peer s0), a_sidctr s0)
+     else kcore s0).
+Proof.
+  intros H0 Hno. unfold fq_reconnect.
+  pose proof (INV_cut _ H0) as H. destruct (kcore_cut s0) as (Hk & Hup & Hse0).
+  assert (Hpeer : option_map p_sid (a_peer (fq_cut s0)) = option_map p_sid (a_peer s0)) by (unfold kcore in Hk; congruence).
+  assert (Hbp : fb_peer (fq_cut s0) = fb_peer s0) by (unfold kcore in Hk; congruence).
+  assert (Hctr : a_sidctr (fq_cut s0) = a_sidctr s0) by (unfold kcore in Hk; congruence).
+  assert (Hmatched : matched (fq_cut s0) = matched s0).
+  { pose proof (kof_kcore _ _ Hk) as Hkk. unfold kof in Hkk. now injection Hkk. }
+  set (s := fq_cut s0) in *.
+  destruct (a_peer s) as [p|] eqn:Hp.
+  2:{ split; [exact H|]. destruct (a_peer s0); [discriminate|]. cbn [is_some]. rewrite andb_false_r. exact Hk. }
+  assert (Hsome : is_some (a_peer s0) = true) by (destruct (a_peer s0); [reflexivity|discriminate]).
+  assert (Hsid0 : option_map p_sid (a_peer s0) = Some (p_sid p)) by (rewrite <- Hpeer; reflexivity).
+  rewrite Hsome, Hsid0.
+  destruct mode eqn:Hmode; cbn [andb]; try (split; [exact H|exact Hk]).
+  all: unfold server_hello; rewrite Hbp; destruct (fb_peer s0) eqn:Hbp0; try (split; [exact H|exact Hk]).
+  all: assert (Hbps : fb_peer s = true) by congruence.
+  all: destruct (fb_sess s) as [se|] eqn:Hse; [destruct (fs_id se =? p_sid p) eqn:Hid|].
+  (* 1: HsOk, resume *)
+  - rewrite Hp. destruct (INV_hello_tail false s p se H Hup Hp Hse Hid) as [HI HK]. cbv zeta in HI, HK.
+    split; [exact HI|]. rewrite HK. unfold kcore. rewrite Hp, Hse, Hbp, Hctr. cbn [option_map].
+    apply N.eqb_eq in Hid. now rewrite Hid.
+  (* 2, 3: HsOk, clean start (other session / no session) *)
+  - clean_branch false s p H Hup Hp Hbps Hctr.
+  - clean_branch false s p H Hup Hp Hbps Hctr.
+  (* HsLostResp *)
+  - split; [exact H|]. unfold kcore. rewrite Hp, Hse, Hbp, Hctr. cbn [option_map]. apply N.eqb_eq in Hid. now rewrite Hid.
+  - exfalso. specialize (Hno eq_refl Hsome eq_refl). rewrite <- Hmatched in Hno. unfold matched in Hno. rewrite Hp, Hse in Hno. congruence.
+  - exfalso. specialize (Hno eq_refl Hsome eq_refl). rewrite <- Hmatched in Hno. unfold matched in Hno. rewrite Hp, Hse in Hno. congruence.
+  (* HsFailOpen *)
+  - rewrite Hp. destruct (INV_hello_tail true s p se H Hup Hp Hse Hid) as [HI HK]. cbv zeta in HI, HK.
+    split; [exact HI|]. rewrite HK. unfold kcore. rewrite Hp, Hse, Hbp, Hctr. cbn [option_map].
+    apply N.eqb_eq in Hid. now rewrite Hid.
+  - clean_branch true s p H Hup Hp Hbps Hctr.
+  - clean_branch true s p H Hup Hp Hbps Hctr.
+Qed.
+
+(* ---- frame facts: what the stream operations leave alone ---- *)
+Lemma kcore_send s : kcore (fq_send s) = kcore s.
+Proof.
+  unfold fq_send. destruct (st_up s); [|reflexivity]. destruct (a_peer s) as [p|] eqn:Hp; [|reflexivity].
+  destruct (eq_fetch (p_q p)) as [[| |batch] q']; try reflexivity.
+  destruct (forallb _ batch).
+  - rewrite (set_queue_some _ _ p Hp). unfold kcore. sfields. now rewrite Hp.
+  - destruct (kcore_cut (set_queue q' s)) as [-> _]. rewrite (set_queue_some _ _ p Hp). unfold kcore. sfields. now rewrite Hp.
+Qed.
+
+Lemma kcore_deliver b s : kcore (fq_deliver b s) = kcore s.
+Proof.
+  unfold fq_deliver. destruct (st_up s); [|reflexivity]. destruct (c2s s) as [|[[ep id] e] rest]; [reflexivity|].
+  destruct (fb_sess s) as [se|] eqn:Hse; [|reflexivity].
+  destruct (lru_set id (fs_seen se)) as [dup seen'].
+  destruct b.
+  - destruct dup; [unfold kcore; sfields; now rewrite Hse|].
+    destruct e; unfold apply_event, fed_op, kcore; sfields; now rewrite Hse.
+  - match goal with |- kcore (fq_cut ?X) = _ => destruct (kcore_cut X) as [-> _] end.
+    destruct dup; [unfold kcore; sfields; now rewrite Hse|].
+    destruct e; unfold apply_event, fed_op, kcore; sfields; now rewrite Hse.
+Qed.
+
+Lemma kcore_ack_deliver s : kcore (fq_ack_deliver s) = kcore s.
+Proof.
+  unfold fq_ack_deliver. destruct (st_up s); [|reflexivity]. destruct (s2c s) as [|id rest]; [reflexivity|].
+  destruct (a_peer s) as [p|] eqn:Hp; [|reflexivity].
+  rewrite (set_queue_some _ _ p) by (sfields; exact Hp). unfold kcore. sfields. now rewrite Hp.
+Qed.
+
+(* ---- both loops until idle ---- *)
+Lemma INV_deliver_all n s : INV s -> INV (fq_deliver_all n s) /\ kcore (fq_deliver_all n s) = kcore s.
+Proof.
+  revert s. induction n as [|n IH]; intros s H; cbn [fq_deliver_all]; [now split|].
+  destruct (st_up s && negb (is_nil (c2s s))); [|now split].
+  destruct (IH _ (INV_deliver true s H)) as [H1 H2]. split; [exact H1|]. now rewrite H2, kcore_deliver.
+Qed.
+
+Lemma INV_ack_all n s : INV s -> INV (fq_ack_all n s) /\ kcore (fq_ack_all n s) = kcore s.
+Proof.
+  revert s. induction n as [|n IH]; intros s H; cbn [fq_ack_all]; [now split|].
+  destruct (st_up s && negb (is_nil (s2c s))); [|now split].
+  destruct (IH _ (INV_ack_deliver s H)) as [H1 H2]. split; [exact H1|]. now rewrite H2, kcore_ack_deliver.
+Qed.
+
+Lemma INV_drain_round s : INV s -> INV (fq_drain_round s) /\ kcore (fq_drain_round s) = kcore s.
+Proof.
+  intros H. unfold fq_drain_round.
+  pose proof (INV_send s H) as H1.
+  destruct (INV_deliver_all (length (c2s (fq_send s))) _ H1) as [H2 K2].
+  destruct (INV_ack_all (length (s2c (fq_deliver_all (length (c2s (fq_send s))) (fq_send s)))) _ H2) as [H3 K3].
+  split; [exact H3|]. now rewrite K3, K2, kcore_send.
+Qed.
+
+Lemma INV_drain_loop n s : INV s -> INV (fq_drain_loop n s) /\ kcore (fq_drain_loop n s) = kcore s.
+Proof.
+  revert s. induction n as [|n IH]; intros s H; cbn [fq_drain_loop]; [now split|].
+  destruct (negb (st_up s) || fq_idle s); [now split|].
+  destruct (INV_drain_round s H) as [H1 K1]. destruct (IH _ H1) as [H2 K2]. split; [exact H2|]. now rewrite K2, K1.
+Qed.
+
+Lemma INV_drain s : INV s -> INV (fq_drain s) /\ kcore (fq_drain s) = kcore s.
+Proof. intros H. unfold fq_drain. destruct (a_peer s) as [p|]; [now apply INV_drain_loop|now split]. Qed.
+
+(* ---- membership changes ---- *)
+Lemma INV_forget s bp fed ret ops :
+  INV s -> st_up s = false -> INV (set_server bp None fed ret ops (applied s) (published s) s).
+Proof.
+  intros (Hpre & Hem & Hap & Hc & Hdown & Hsess & Hq) Hup. unfold INV, Eof, Aof. sfields.
+  split; [exact Hpre|]. split; [exact Hem|]. split; [exact Hap|]. split; [exact Hc|]. split; [exact Hdown|].
+  split; [intros se Hs; discriminate|].
+  destruct (a_peer s) as [p|]; [|exact Hq]. destruct Hq as [Hsid (pre & HEq & Hcons & Hnext & Hbad & Hread & Hm)].
+  split; [exact Hsid|]. exists pre. repeat (split; [assumption|]). exact Hup.
+Qed.
+
+Lemma INV_peer_lost s : INV s ->
+  let s1 := fed_op s (OUnsubAll NODE_A) in
+  INV (fq_cut (set_server false None (fb_fed s1) (fb_ret s1) (fb_ops s1) (applied s1) (published s1) s1)).
+Proof.
+  intros H. cbv zeta.
+  apply INV_core with (s := set_server false None (db_step (fb_fed s) (OUnsubAll NODE_A)) (fb_ret s) (fb_ops s ++ [OUnsubAll NODE_A])
+                                        (applied (fq_cut s)) (published (fq_cut s)) (fq_cut s)).
+  - unfold fq_cut, fed_op, set_queue, core. sfields. destruct (st_up s); [|reflexivity]. sfields.
+    destruct (a_peer s); reflexivity.
+  - apply INV_forget; [now apply INV_cut|]. now destruct (kcore_cut s) as (_ & -> & _).
+Qed.
+
+Lemma INV_peer_join s : INV s -> INV (set_server true (fb_sess s) (fb_fed s) (fb_ret s) (fb_ops s) (applied s) (published s) s).
+Proof.
+  intros (Hpre & Hem & Hap & Hc & Hdown & Hsess & Hq). unfold INV, Eof, Aof. sfields.
+  split; [exact Hpre|]. split; [exact Hem|]. split; [exact Hap|]. split; [exact Hc|]. split; [exact Hdown|].
+  split; [intros se Hs; split; [now apply Hsess|reflexivity]|exact Hq].
+Qed.
+
+Lemma INV_drop_peer s : INV s -> INV (set_peer None (a_sidctr (fq_cut s)) (a_epoch (fq_cut s)) (emitted (fq_cut s)) (fq_cut s)).
+Proof.
+  intros H. pose proof (INV_cut s H) as (Hpre & Hem & Hap & Hc & Hdown & Hsess & Hq).
+  destruct (kcore_cut s) as (_ & Hup & _).
+  unfold INV, Eof, Aof. sfields.
+  split; [exact Hpre|]. split; [exact Hem|]. split; [exact Hap|]. split; [exact Hc|]. split; [exact Hdown|].
+  split; [exact Hsess|exact Hup].
+Qed.
+
+Lemma INV_join_peer s : INV s -> a_peer s = None ->
+  INV (set_peer (Some {| p_sid := a_sidctr s; p_q := eq_new |}) (a_sidctr s + 1) (a_epoch s + 1) (emitted s) s).
+Proof.
+  intros (Hpre & Hem & Hap & Hc & Hdown & Hsess & Hq) Hp. rewrite Hp in Hq.
+  unfold INV, Eof, Aof. sfields. destruct (Hdown Hq) as [Hc0 Hs0].
+  split; [exact Hpre|]. split; [intros t Ht; apply Hem in Ht; lia|]. split; [intros t Ht; apply Hap in Ht; lia|].
+  split; [rewrite Hc0; intros t []|]. split; [exact Hdown|].
+  split; [intros se Hs; destruct (Hsess se Hs); split; [lia|assumption]|]. split; [lia|].
+  assert (HE0 : proj (a_epoch s + 1) (emitted s) = []) by (apply proj_none; intros t Ht; apply Hem in Ht; lia).
+  assert (HA0 : proj (a_epoch s + 1) (applied s) = []) by (apply proj_none; intros t Ht; apply Hap in Ht; lia).
+  rewrite HE0, HA0. exists []. unfold eq_new. sfields.
+  split; [reflexivity|]. split; [exact I|]. split; [reflexivity|]. split; [reflexivity|]. split; [now left|].
+  destruct (fb_sess s) as [se|] eqn:Hse; [|exact Hq].
+  destruct (Hsess se eq_refl) as [Hlt _]. destruct (N.eqb_spec (fs_id se) (a_sidctr s)) as [E|_]; [lia|exact Hq].
+Qed.
+
+(* ---- one step of the schedule ---- *)
+Lemma kof_matched s x b c : kcore s = (Some x, b, Some x, c) -> kof s = {| k_apeer := true; k_bpeer := b; k_match := true |}.
+Proof.
+  unfold kcore, kof, matched. intros H. injection H as H1 H2 H3 _.
+  destruct (a_peer s) as [p|]; [|discriminate]. destruct (fb_sess s) as [se|]; [|discriminate].
+  cbn [option_map] in H1, H3. injection H1 as ->. injection H3 as ->. cbn [is_some]. now rewrite N.eqb_refl, H2.
+Qed.
+
+Lemma step_inv s ev order : INV s -> snd (kstep (kof s) ev) = false ->
+  INV (fq_step s ev order) /\ kof (fq_step s ev order) = fst (kstep (kof s) ev).
+Proof.
+  intros H Hno. destruct ev; cbn [fq_step kstep fst snd] in *.
+  - (* QSub *)
+    destruct (ls_subscribe c (fed_full_topic share filter) (a_index s) (a_topics s)) as [[ix tp] fresh].
+    destruct fresh; [|split; [exact H|reflexivity]].
+    split; [apply INV_emit1; exact H|]. apply kof_kcore. now destruct (kcore_emit1 (ESub share filter) (set_local ix tp s)) as [-> _].
+  - (* QUnsub *)
+    destruct (ls_unsubscribe c topic (a_index s) (a_topics s)) as [[ix tp] gone].
+    destruct gone; [|split; [exact H|reflexivity]].
+    split; [apply INV_emit1; exact H|]. apply kof_kcore. now destruct (kcore_emit1 (EUnsub topic) (set_local ix tp s)) as [-> _].
+  - (* QTerm *)
+    destruct (ls_unsubscribe_all c (a_index s) (a_topics s)) as [[ix tp] rm].
+    split; [apply INV_emit_list; exact H|]. apply kof_kcore.
+    now destruct (kcore_emit_list (fq_resolve (map EUnsub rm) order) (set_local ix tp s)) as [-> _].
+  - (* QMsg *)
+    split; [now apply INV_emit1|]. apply kof_kcore. now destruct (kcore_emit1 (EMsg (msg_event_form m)) s) as [-> _].
+  - split; [now apply INV_send|apply kof_kcore, kcore_send].
+  - split; [now apply INV_deliver|apply kof_kcore, kcore_deliver].
+  - split; [now apply INV_ack_deliver|apply kof_kcore, kcore_ack_deliver].
+  - split; [now apply INV_cut|apply kof_kcore; now destruct (kcore_cut s) as [-> _]].
+  - (* QReconnect *)
+    assert (Hcond : mode = HsLostResp -> is_some (a_peer s) = true -> fb_peer s = true -> matched s = true).
+    { intros -> Ha Hb. cbn [kof k_apeer k_bpeer k_match] in Hno. rewrite Ha, Hb in Hno. cbn [andb snd] in Hno.
+      destruct (matched s); [reflexivity|discriminate]. }
+    destruct (INV_reconnect mode order s H Hcond) as [HI HK]. split; [exact HI|].
+    destruct mode; cbn [andb] in HK.
+    + cbn [kof k_apeer k_bpeer] in *. destruct (is_some (a_peer s)) eqn:Ha, (fb_peer s) eqn:Hb; cbn [andb fst] in *;
+        try (apply kof_kcore in HK; rewrite HK; unfold kof; now rewrite Ha, Hb).
+      destruct (a_peer s) as [p|]; [|discriminate]. cbn [option_map] in HK. exact (kof_matched _ _ _ _ HK).
+    + apply kof_kcore in HK. exact HK.
+    + cbn [kof k_apeer k_bpeer] in *. destruct (is_some (a_peer s)) eqn:Ha, (fb_peer s) eqn:Hb; cbn [andb fst] in *;
+        try (apply kof_kcore in HK; rewrite HK; unfold kof; now rewrite Ha, Hb).
+      destruct (a_peer s) as [p|]; [|discriminate]. cbn [option_map] in HK. exact (kof_matched _ _ _ _ HK).
+    + cbn [kof k_apeer k_bpeer] in *. destruct (is_some (a_peer s)) eqn:Ha, (fb_peer s) eqn:Hb; cbn [andb fst] in *;
+        try (apply kof_kcore in HK; rewrite HK; unfold kof; now rewrite Ha, Hb).
+      destruct (a_peer s) as [p|]; [|discriminate]. cbn [option_map] in HK. exact (kof_matched _ _ _ _ HK).
+  - (* QDrain *)
+    destruct (INV_drain s H) as [HI HK]. split; [exact HI|now apply kof_kcore].
+  - (* QPeerLost *)
+    cbn [kof k_bpeer]. destruct (fb_peer s) eqn:Hb; cbn [fst]; [|split; [exact H|unfold kof; now rewrite Hb]].
+    split; [exact (INV_peer_lost s H)|].
+    match goal with |- kof (fq_cut ?X) = _ => destruct (kcore_cut X) as (Hk & _ & _); rewrite (kof_kcore _ _ Hk) end.
+    unfold kof, matched, fed_op. sfields. now destruct (a_peer s).
+  - (* QPeerJoin *)
+    split; [now apply INV_peer_join|]. unfold kof, matched. sfields. reflexivity.
+  - (* QDropPeer *)
+    destruct (a_peer s) as [p|] eqn:Hp.
+    + split; [exact (INV_drop_peer s H)|]. unfold kof, matched. sfields. cbn [is_some].
+      destruct (kcore_cut s) as (Hk & _ & _). unfold kcore in Hk. injection Hk as _ -> _ _. reflexivity.
+    + split; [exact H|]. unfold kof, matched. rewrite Hp. reflexivity.
+  - (* QJoinPeer *)
+    destruct (a_peer s) as [p|] eqn:Hp.
+    + split; [exact H|]. unfold kof. rewrite Hp. reflexivity.
+    + split; [now apply INV_join_peer|]. unfold kof, matched. sfields. rewrite Hp. cbn [is_some].
+      destruct (fb_sess s) as [se|] eqn:Hse; [|reflexivity].
+      destruct H as (_ & _ & _ & _ & _ & Hsess & _). destruct (Hsess se Hse) as [Hlt _].
+      destruct (N.eqb_spec (fs_id se) (a_sidctr s)); [lia|reflexivity].
+Qed.
+
+Lemma run_inv evs : forall s orders, INV s -> kscan (kof s) evs = false -> INV (fq_run s evs orders).
+Proof.
+  induction evs as [|ev r IH]; intros s orders H Hk; cbn [fq_run]; [exact H|].
+  cbn [kscan] in Hk. destruct (kstep (kof s) ev) as [k' hit] eqn:Hst. apply orb_false_iff in Hk as [Hhit Hk].
+  destruct (step_inv s ev (hd [] orders) H) as [HI HK]; [rewrite Hst; exact Hhit|].
+  apply IH; [exact HI|]. rewrite HK, Hst. exact Hk.
+Qed.
+
+(* ------------------------------------------------------------------ *)
+(* the statements                                                      *)
+(* ------------------------------------------------------------------ *)
+
+(* what B applied is, epoch by epoch, a prefix of what A emitted: in emission order,
+   without gaps and without duplicates *)
+Definition prefix_ok (s : fstate) : Prop :=
+  forall ep, exists rest, proj ep (emitted s) = proj ep (applied s) ++ rest.
+
+Definition no_dangling (s : fstate) : Prop :=
+  match a_peer s with Some p => evq_bad (p_q p) = false | None => True end.
+
+Lemma fq_prefix_partial ret evs orders :
+  kf_hello_reply_lost evs = false ->
+  prefix_ok (fq_run (fq_init ret) evs orders) /\ no_dangling (fq_run (fq_init ret) evs orders).
+Proof.
+  intros Hk. assert (H : INV (fq_run (fq_init ret) evs orders)) by (apply run_inv; [apply INV_init|exact Hk]).
+  destruct H as (Hpre & _ & _ & _ & _ & _ & Hq). split; [exact Hpre|].
+  unfold no_dangling. destruct (a_peer _) as [p|]; [|exact I].
+  destruct Hq as [_ (pre & _ & _ & _ & Hbad & _)]. exact Hbad.
+Qed.
+
+(* the full statement is false of the code: a Hello reply lost while B starts a fresh
+   session makes A resume with its old queue - event 0 is applied twice *)
+Definition ex_msg : msg :=
+  {| m_dup := false; m_qos := 1; m_retained := false; m_topic := [97]; m_payload := [49]; m_pid := 0;
+     m_ctype := []; m_corr := []; m_expiry := 0; m_pfmt := 0; m_resp := []; m_subids := []; m_uprops := [] |}.
+
+Definition ex_lost_hello : list fqev :=
+  [QPeerJoin; QJoinPeer; QReconnect HsOk; QMsg ex_msg; QSend; QDeliver true; QCut;
+   QPeerLost; QPeerJoin; QReconnect HsLostResp; QReconnect HsOk; QSend; QDeliver true].
+
+Lemma fq_prefix_refuted : exists ret evs orders, ~ prefix_ok (fq_run (fq_init ret) evs orders).
+Proof.
+  exists [], ex_lost_hello, []. intros H. destruct (H 2) as [rest Hr]. vm_compute in Hr. discriminate.
+Qed.
+
+Lemma ex_lost_hello_kf : kf_hello_reply_lost ex_lost_hello = true.
+Proof. vm_compute. reflexivity. Qed.
+
+(* ------------------------------------------------------------------ *)
+(* completeness: both loops run to idle                                *)
+(* ------------------------------------------------------------------ *)
+
+(* shape of the state while the loops run without a fault *)
+Lemma deliver_true_shape s ep id e rest se :
+  st_up s = true -> c2s s = (ep, id, e) :: rest -> fb_sess s = Some se ->
+  let s' := fq_deliver true s in
+  st_up s' = true /\ c2s s' = rest /\ s2c s' = s2c s ++ [id] /\ a_peer s' = a_peer s /\
+  a_epoch s' = a_epoch s /\ emitted s' = emitted s /\
+  exists se', fb_sess s' = Some se' /\ fs_id se' = fs_id se /\ fs_next se' = id + 1.
+Proof.
+  intros Hup Hc Hse. cbv zeta. unfold fq_deliver. rewrite Hup, Hc, Hse.
+  destruct (lru_set id (fs_seen se)) as [dup seen'].
+  destruct dup; [sfields; repeat split; eexists; repeat split|].
+  destruct e; unfold apply_event, fed_op; sfields; repeat split; eexists; repeat split.
+Qed.
+
+Lemma deliver_all_shape : forall cs s se,
+  st_up s = true -> c2s s = cs -> fb_sess s = Some se ->
+  let s' := fq_deliver_all (length cs) s in
+  st_up s' = true /\ c2s s' = [] /\ s2c s' = s2c s ++ map (fun t : tagged => snd (fst t)) cs /\ a_peer s' = a_peer s /\
+  a_epoch s' = a_epoch s /\ emitted s' = emitted s /\
+  exists se', fb_sess s' = Some se' /\ fs_id se' = fs_id se /\
+              fs_next se' = match rev cs with [] => fs_next se | t :: _ => snd (fst t) + 1 end.
+Proof.
+  induction cs as [|[[ep id] e] rest IH]; intros s se Hup Hc Hse; cbv zeta; cbn [length fq_deliver_all].
+  - rewrite app_nil_r. repeat split; try assumption. now exists se.
+  - rewrite Hup, Hc. cbn [is_nil negb andb].
+    destruct (deliver_true_shape s ep id e rest se Hup Hc Hse) as (H1 & H2 & H3 & H4 & H5 & H6 & se1 & Hs1 & Hi1 & Hn1).
+    destruct (IH _ se1 H1 H2 Hs1) as (G1 & G2 & G3 & G4 & G5 & G6 & se2 & Hs2 & Hi2 & Hn2).
+    split; [exact G1|]. split; [exact G2|]. split; [rewrite G3, H3, <- app_assoc; reflexivity|].
+    split; [congruence|]. split; [congruence|]. split; [congruence|].
+    exists se2. split; [exact Hs2|]. split; [congruence|]. rewrite Hn2. cbn [rev].
+    destruct (rev rest) as [|t r] eqn:Hr; cbn [app]; [exact Hn1|reflexivity].
+Qed.
+
+Lemma ack_all_shape : forall sc s p,
+  st_up s = true -> s2c s = sc -> a_peer s = Some p ->
+  let s' := fq_ack_all (length sc) s in
+  st_up s' = true /\ c2s s' = c2s s /\ s2c s' = [] /\ fb_sess s' = fb_sess s /\ a_epoch s' = a_epoch s /\ emitted s' = emitted s /\
+  exists p', a_peer s' = Some p' /\ p_sid p' = p_sid p /\ evq_read (p_q p') = evq_read (p_q p) /\
+             evq_closed (p_q p') = evq_closed (p_q p).
+Proof.
+  induction sc as [|id rest IH]; intros s p Hup Hs Hp; cbv zeta; cbn [length fq_ack_all].
+  - repeat split; try assumption. now exists p.
+  - rewrite Hup, Hs. cbn [is_nil negb andb].
+    assert (Hstep : let s1 := fq_ack_deliver s in
+                    st_up s1 = true /\ c2s s1 = c2s s /\ s2c s1 = rest /\ fb_sess s1 = fb_sess s /\ a_epoch s1 = a_epoch s /\
+                    emitted s1 = emitted s /\
+                    a_peer s1 = Some {| p_sid := p_sid p; p_q := eq_ack id (p_q p) |}).
+    { cbv zeta. unfold fq_ack_deliver. rewrite Hup, Hs, Hp. rewrite (set_queue_some _ _ p) by (sfields; exact Hp).
+      sfields. repeat split; assumption. }
+    cbv zeta in Hstep. destruct Hstep as (H1 & H2 & H3 & H4 & H5 & H6 & H7).
+    destruct (IH _ _ H1 H3 H7) as (G1 & G2 & G3 & G4 & G5 & G6 & p' & Hp' & Hi & Hr & Hc).
+    split; [exact G1|]. split; [congruence|]. split; [exact G3|]. split; [congruence|]. split; [congruence|]. split; [congruence|].
+    exists p'. split; [exact Hp'|]. split; [exact Hi|]. split; [exact Hr|exact Hc].
+Qed.
+
+Lemma consec_skipn_head b l k x : consec b l -> head_id (skipn k l) = Some x -> x = b + N.of_nat k.
+Proof.
+  revert b l. induction k as [|k IH]; intros b l Hc H.
+  - cbn [skipn] in H. destruct l as [|[i e] r]; [discriminate|]. cbn [consec head_id] in *. destruct Hc as [-> _]. injection H as <-. lia.
+  - destruct l as [|[i e] r]; [discriminate|]. cbn [skipn] in H. cbn [consec] in Hc. destruct Hc as [-> Hc].
+    rewrite (IH _ _ Hc H). lia.
+Qed.
+
+Lemma In_firstn {A} (x : A) k l : In x (firstn k l) -> In x l.
+Proof. revert l. induction k as [|k IH]; intros [|y r] H; cbn [firstn] in H; try contradiction. destruct H as [->|H]; [now left|right; now apply IH]. Qed.
+
+Lemma In_drop_until x id l : In x (drop_until id l) -> In x l.
+Proof.
+  induction l as [|[i e] r IH]; cbn [drop_until]; [tauto|]. destruct (i =? id); [tauto|]. intros H. right. now apply IH.
+Qed.
+
+Lemma In_proj ep x l : In x (proj ep l) -> exists t, In t l /\ untag t = x.
+Proof. unfold proj. intros H. apply in_map_iff in H as (t & Ht & Hin). apply filter_In in Hin as [Hin _]. now exists t. Qed.
+
+(* position of the next event to read *)
+Definition rpos (s : fstate) : N :=
+  match a_peer s with
+  | Some p => match evq_read (p_q p) with Some r => r | None => nlen (Eof s) end
+  | None => 0
+  end.
+Definition unread (s : fstate) : N := nlen (Eof s) - rpos s.
+
+(* the stream is up, nothing is in flight, the queue is open, every emitted event can be marshalled *)
+Definition DS (s : fstate) : Prop :=
+  INV s /\ st_up s = true /\ c2s s = [] /\ s2c s = [] /\
+  (exists p, a_peer s = Some p /\ evq_closed (p_q p) = false) /\
+  (forall t, In t (emitted s) -> marshal_ok (snd t) = true).
+
+Lemma DS_round s : DS s -> fq_idle s = false ->
+  DS (fq_drain_round s) /\ unread (fq_drain_round s) < unread s.
+Proof.
+  intros (HI & Hup & Hc & Hs & (p & Hp & Hopen) & Hmok) Hidle.
+  pose proof HI as (Hpre & Hem & Hap & Hcep & Hdown & Hsess & Hq). rewrite Hp in Hq. destruct Hq as [Hsid Hq].
+  destruct Hq as (pre & HEq & Hcons & Hnext & Hbad & Hread & Hm).
+  destruct (fb_sess s) as [se|] eqn:Hse; [|congruence]. destruct (fs_id se =? p_sid p) eqn:Hid; [|congruence].
+  rewrite Hup, Hc, Hs in Hm.
+  destruct Hm as (D & C & U & HD & HnD & Hpd & Hc2 & HupU & _ & HA & Hseen & Hs2).
+  destruct C as [|? ?]; [|discriminate]. cbn [app] in HD, HA.
+  (* not idle: there is something to read *)
+  unfold fq_idle in Hidle. rewrite Hup, Hc, Hs, Hp in Hidle. cbn [is_nil andb] in Hidle.
+  destruct (evq_read (p_q p)) as [r|] eqn:Hr; [|discriminate].
+  pose proof (HupU eq_refl) as HrU. destruct U as [|[r' e0] U1]; [discriminate|]. cbn [head_id] in HrU. injection HrU as <-.
+  assert (Hsplit : exists l1, evq_l (p_q p) = l1 ++ (r, e0) :: U1 /\ D = pre ++ l1).
+  { apply app_eq_prefix; [rewrite <- HEq; exact HD|]. unfold nlen in Hpd. lia. }
+  destruct Hsplit as (l1 & HL & HDl).
+  assert (HrD : r = nlen D) by (pose proof Hcons as Hc'; rewrite HD in Hc'; apply consec_head in Hc'; lia).
+  assert (HconsU : consec r ((r, e0) :: U1)).
+  { pose proof Hcons as Hc'. rewrite HD in Hc'. apply consec_app in Hc' as [_ Hc']. rewrite N.add_0_l, <- HrD in Hc'. exact Hc'. }
+  assert (Hdrop : drop_until r (evq_l (p_q p)) = (r, e0) :: U1).
+  { rewrite HL. pose proof Hcons as Hc'. rewrite HEq, HL in Hc'. apply consec_app in Hc' as [_ Hc'].
+    pose proof (consec_head _ _ _ _ _ Hc') as Hrr. rewrite Hrr at 1. apply drop_until_consec; [exact Hc'|discriminate]. }
+  (* the send step *)
+  set (U0 := (r, e0) :: U1) in *.
+  set (batch := firstn FETCH_MAX U0).
+  set (q' := {| evq_next := evq_next (p_q p); evq_l := evq_l (p_q p); evq_read := head_id (skipn FETCH_MAX U0);
+                evq_closed := evq_closed (p_q p); evq_bad := evq_bad (p_q p) |}).
+  assert (Hfetch : eq_fetch (p_q p) = (FEvents batch, q')).
+  { unfold eq_fetch. rewrite Hopen, Hr. destruct (evq_l (p_q p)) as [|x l] eqn:Hl.
+    - destruct l1; discriminate.
+    - rewrite Hdrop. subst q' batch. rewrite Hopen. reflexivity. }
+  assert (Hbm : forallb (fun ie : N * fevent => marshal_ok (snd ie)) batch = true).
+  { apply forallb_forall. intros x Hx. apply In_firstn in Hx.
+    assert (HxE : In x (Eof s)) by (rewrite HD; apply in_or_app; now right).
+    apply In_proj in HxE as (t & Ht & <-). now apply Hmok. }
+  set (s1 := fq_send s).
+  assert (Hs1 : s1 = set_stream true (map (fun ie : N * fevent => (a_epoch s, fst ie, snd ie)) batch) [] (set_queue q' s)).
+  { subst s1. unfold fq_send. rewrite Hup, Hp, Hfetch, Hbm. rewrite (set_queue_some _ _ p Hp). sfields. now rewrite Hc, Hs. }
+  assert (Hp1 : a_peer s1 = Some {| p_sid := p_sid p; p_q := q' |}) by (rewrite Hs1, (set_queue_some _ _ p Hp); reflexivity).
+  assert (Hup1 : st_up s1 = true) by (rewrite Hs1; reflexivity).
+  assert (Hse1 : fb_sess s1 = Some se) by (rewrite Hs1, (set_queue_some _ _ p Hp); exact Hse).
+  (* deliver everything, acknowledge everything *)
+  destruct (deliver_all_shape (c2s s1) s1 se Hup1 eq_refl Hse1) as (G1 & G2 & G3 & G4 & G5 & G6 & se2 & Hs2' & Hi2 & Hn2).
+  set (s2 := fq_deliver_all (length (c2s s1)) s1) in *.
+  rewrite Hp1 in G4.
+  destruct (ack_all_shape (s2c s2) s2 _ G1 eq_refl G4) as (K1 & K2 & K3 & K4 & K5 & K6 & p3 & Hp3 & Hi3 & Hr3 & Hc3).
+  set (s3 := fq_ack_all (length (s2c s2)) s2) in *.
+  assert (Hround : fq_drain_round s = s3) by reflexivity.
+  rewrite Hround.
+  assert (HE3 : Eof s3 = Eof s).
+  { unfold Eof. rewrite K5, K6, G5, G6, Hs1, (set_queue_some _ _ p Hp). reflexivity. }
+  split.
+  - split; [rewrite <- Hround; now apply INV_drain_round|]. split; [exact K1|]. split; [rewrite K2; exact G2|]. split; [exact K3|].
+    split; [exists p3; split; [exact Hp3|]; rewrite Hc3; exact Hopen|].
+    intros t Ht. apply Hmok. rewrite K6, G6, Hs1, (set_queue_some _ _ p Hp) in Ht. exact Ht.
+  - unfold unread, rpos. rewrite HE3, Hp3, Hr3, Hp. cbn [p_q q' evq_read]. rewrite Hr.
+    assert (Hlt : r < nlen (Eof s)) by (rewrite HD, nlen_app; subst U0; rewrite nlen_cons; lia).
+    destruct (head_id (skipn FETCH_MAX U0)) as [r2|] eqn:Hh; [|lia].
+    pose proof (consec_skipn_head _ _ _ _ HconsU Hh) as Hr2. unfold FETCH_MAX in Hr2. lia.
+Qed.
+
+Lemma DS_loop : forall n s, DS s -> unread s < N.of_nat n ->
+  DS (fq_drain_loop n s) /\ fq_idle (fq_drain_loop n s) = true.
+Proof.
+  induction n as [|n IH]; intros s Hds Hlt; [lia|]. cbn [fq_drain_loop].
+  pose proof Hds as (_ & Hup & _). rewrite Hup. cbn [negb orb].
+  destruct (fq_idle s) eqn:Hidle; [now split|].
+  destruct (DS_round s Hds Hidle) as [Hds' Hlt']. apply IH; [exact Hds'|lia].
+Qed.
+
+Lemma DS_unread_bound s p : DS s -> a_peer s = Some p -> unread s <= nlen (evq_l (p_q p)).
+Proof.
+  intros (HI & _) Hp. destruct HI as (_ & _ & _ & _ & _ & _ & Hq). rewrite Hp in Hq.
+  destruct Hq as [_ (pre & HEq & _ & _ & _ & Hread & _)].
+  unfold unread, rpos. rewrite Hp. assert (nlen (Eof s) = nlen pre + nlen (evq_l (p_q p))) by (rewrite HEq at 1; apply nlen_app).
+  destruct Hread as [->|(r & -> & H1 & H2)]; lia.
+Qed.
+
+Lemma DS_drain s : DS s -> DS (fq_drain s) /\ fq_idle (fq_drain s) = true.
+Proof.
+  intros Hds. pose proof Hds as (_ & _ & _ & _ & (p & Hp & _) & _). unfold fq_drain. rewrite Hp.
+  apply DS_loop; [exact Hds|]. pose proof (DS_unread_bound s p Hds Hp). unfold nlen in *. lia.
+Qed.
+
+(* idle: everything emitted in the current epoch has been applied *)
+Lemma DS_idle_complete s : DS s -> fq_idle s = true -> Aof s = Eof s.
+Proof.
+  intros (HI & Hup & Hc & Hs & (p & Hp & _) & _) Hidle.
+  destruct HI as (_ & _ & _ & _ & _ & _ & Hq). rewrite Hp in Hq. destruct Hq as [_ (pre & _ & _ & _ & _ & _ & Hm)].
+  destruct (fb_sess s) as [se|]; [|congruence]. destruct (fs_id se =? p_sid p); [|congruence].
+  rewrite Hup, Hc in Hm. destruct Hm as (D & C & U & HD & _ & _ & Hc2 & HupU & _ & HA & _).
+  destruct C; [|discriminate]. unfold fq_idle in Hidle. rewrite Hup, Hc, Hs, Hp in Hidle. cbn [is_nil andb] in Hidle.
+  destruct (evq_read (p_q p)) eqn:Hr; [discriminate|]. pose proof (HupU eq_refl) as HU.
+  destruct U as [|[? ?] ?]; [|discriminate]. cbn [app] in HD, HA. rewrite app_nil_r in HD.
+  destruct HA as [HA|(x & e & rest & Habs & _)]; [congruence|discriminate].
+Qed.
+
+(* ------------------------------------------------------------------ *)
+(* every emitted event can be marshalled (when the schedule carries no   *)
+(* string that is not UTF-8)                                            *)
+(* ------------------------------------------------------------------ *)
+
+Definition goodt (t : str) : Prop :=
+  utf8_valid t = true /\ marshal_ok (ESub (fst (split_topic t)) (snd (split_topic t))) = true.
+
+Definition LT (s : fstate) : Prop :=
+  (forall c keys, In (c, keys) (a_index s) -> forall t, In t keys -> goodt t) /\
+  (forall t n, In (t, n) (a_topics s) -> goodt t) /\
+  (forall m, In m (a_ret s) -> marshal_ok (EMsg m) = true) /\
+  (forall t, In t (emitted s) -> marshal_ok (snd t) = true).
+
+Definition lcore (s : fstate) := (a_index s, a_topics s, a_ret s, emitted s).
+
+Lemma LT_lcore s s' : lcore s = lcore s' -> LT s -> LT s'.
+Proof. unfold lcore, LT. intros H. injection H as H1 H2 H3 H4. now rewrite H1, H2, H3, H4. Qed.
+
+Lemma lcore_cut s : lcore (fq_cut s) = lcore s.
+Proof. unfold fq_cut, set_queue, lcore. destruct (st_up s); [|reflexivity]. sfields. destruct (a_peer s); reflexivity. Qed.
+
+Lemma lcore_send s : lcore (fq_send s) = lcore s.
+Proof.
+  unfold fq_send. destruct (st_up s); [|reflexivity]. destruct (a_peer s) as [p|] eqn:Hp; [|reflexivity].
+  destruct (eq_fetch (p_q p)) as [[| |batch] q']; try reflexivity.
+  destruct (forallb _ batch); [|rewrite lcore_cut]; rewrite (set_queue_some _ _ p Hp); reflexivity.
+Qed.
+
+Lemma lcore_deliver b s : lcore (fq_deliver b s) = lcore s.
+Proof.
+  unfold fq_deliver. destruct (st_up s); [|reflexivity]. destruct (c2s s) as [|[[ep id] e] rest]; [reflexivity|].
+  destruct (fb_sess s) as [se|]; [|reflexivity]. destruct (lru_set id (fs_seen se)) as [dup seen'].
+  destruct b; [|rewrite lcore_cut]; (destruct dup; [reflexivity|destruct e; reflexivity]).
+Qed.
+
+Lemma lcore_ack_deliver s : lcore (fq_ack_deliver s) = lcore s.
+Proof.
+  unfold fq_ack_deliver. destruct (st_up s); [|reflexivity]. destruct (s2c s) as [|id rest]; [reflexivity|].
+  destruct (a_peer s) as [p|] eqn:Hp; [|reflexivity]. rewrite (set_queue_some _ _ p) by (sfields; exact Hp). reflexivity.
+Qed.
+
+Lemma lcore_deliver_all n s : lcore (fq_deliver_all n s) = lcore s.
+Proof. revert s. induction n as [|n IH]; intros s; cbn [fq_deliver_all]; [reflexivity|]. destruct (_ && _); [|reflexivity]. now rewrite IH, lcore_deliver. Qed.
+Lemma lcore_ack_all n s : lcore (fq_ack_all n s) = lcore s.
+Proof. revert s. induction n as [|n IH]; intros s; cbn [fq_ack_all]; [reflexivity|]. destruct (_ && _); [|reflexivity]. now rewrite IH, lcore_ack_deliver. Qed.
+Lemma lcore_drain_loop n s : lcore (fq_drain_loop n s) = lcore s.
+Proof.
+  revert s. induction n as [|n IH]; intros s; cbn [fq_drain_loop]; [reflexivity|]. destruct (_ || _); [reflexivity|].
+  rewrite IH. unfold fq_drain_round. now rewrite lcore_ack_all, lcore_deliver_all, lcore_send.
+Qed.
+Lemma lcore_drain s : lcore (fq_drain s) = lcore s.
+Proof. unfold fq_drain. destruct (a_peer s); [apply lcore_drain_loop|reflexivity]. Qed.
+
+Lemma LT_emit1 e s : LT s -> marshal_ok e = true -> LT (emit1 e s).
+Proof.
+  intros (H1 & H2 & H3 & H4) He. unfold emit1. destruct (a_peer s) as [p|]; [|exact (conj H1 (conj H2 (conj H3 H4)))].
+  unfold LT. sfields. split; [exact H1|]. split; [exact H2|]. split; [exact H3|].
+  intros t Ht. apply in_app_or in Ht as [Ht|[<-|[]]]; [now apply H4|exact He].
+Qed.
+
+Lemma LT_emit_list es s : LT s -> (forall e, In e es -> marshal_ok e = true) -> LT (emit_list es s).
+Proof.
+  unfold emit_list. revert s. induction es as [|e r IH]; intros s H He; cbn [fold_left]; [exact H|].
+  apply IH; [apply LT_emit1; [exact H|apply He; now left]|intros e' He'; apply He; now right].
+Qed.
+
+(* boolean equality of events is equality as far as marshalling goes *)
+Lemma fevent_eqb_marshal a b : fevent_eqb a b = true -> marshal_ok b = marshal_ok a.
+Proof.
+  destruct a as [g f|t|m], b as [g' f'|t'|m']; cbn [fevent_eqb]; try discriminate.
+  - intros H. apply andb_true_iff in H as [H1 H2].
+    destruct (str_eqb_spec g g'), (str_eqb_spec f f'); try discriminate. now subst.
+  - intros H. destruct (str_eqb_spec t t'); [now subst|discriminate].
+  - unfold msg_eqb. intros H. repeat (apply andb_true_iff in H as [H ?]).
+    cbn [marshal_ok].
+    repeat match goal with Hx : str_eqb ?a ?b = true |- _ => destruct (str_eqb_spec a b); [|discriminate]; clear Hx end.
+    congruence.
+Qed.
+
+Lemma ev_remove1_in x l l' : ev_remove1 x l = Some l' ->
+  exists y, fevent_eqb x y = true /\ forall z, In z l -> z = y \/ In z l'.
+Proof.
+  revert l'. induction l as [|y r IH]; intros l' H; cbn [ev_remove1] in H; [discriminate|].
+  destruct (fevent_eqb x y) eqn:E.
+  - injection H as <-. exists y. split; [exact E|]. intros z [<-|Hz]; [now left|now right].
+  - destruct (ev_remove1 x r) as [r'|] eqn:Hr; [|discriminate]. injection H as <-.
+    destruct (IH r' eq_refl) as (y0 & Hy0 & Hin). exists y0. split; [exact Hy0|].
+    intros z [<-|Hz]; [right; now left|]. destruct (Hin z Hz) as [->|Hz']; [now left|right; now right].
+Qed.
+
+Lemma ev_perm_in a : forall b, ev_perm a b = true -> forall z, In z b -> exists y, In y a /\ fevent_eqb y z = true.
+Proof.
+  induction a as [|x a' IH]; intros b H z Hz; cbn [ev_perm] in H.
+  - destruct b; [destruct Hz|discriminate].
+  - destruct (ev_remove1 x b) as [b'|] eqn:Hr; [|discriminate].
+    destruct (ev_remove1_in _ _ _ Hr) as (y & Hy & Hin). destruct (Hin z Hz) as [->|Hz'].
+    + exists x. split; [now left|exact Hy].
+    + destruct (IH b' H z Hz') as (y' & Hy' & E). exists y'. split; [now right|exact E].
+Qed.
+
+Lemma resolve_marshal expected given :
+  (forall e, In e expected -> marshal_ok e = true) -> forall e, In e (fq_resolve expected given) -> marshal_ok e = true.
+Proof.
+  intros H e He. unfold fq_resolve in He. destruct (ev_perm expected given) eqn:Hp; [|now apply H].
+  destruct (ev_perm_in _ _ Hp e He) as (y & Hy & E). rewrite (fevent_eqb_marshal _ _ E). now apply H.
+Qed.
+
+Lemma in_aset_pair_q {V} (k' k : str) (v' v : V) l : In (k', v') (aset k v l) -> (k', v') = (k, v) \/ In (k', v') l.
+Proof.
+  induction l as [|[k0 v0] r IH]; cbn [aset In]; intros H.
+  - destruct H as [H|[]]. left. now symmetry.
+  - destruct (str_eqb k k0); cbn [In] in H.
+    + destruct H as [H|H]; [left; now symmetry|right; now right].
+    + destruct H as [H|H]; [right; now left|]. apply IH in H as [H|H]; [now left|right; now right].
+Qed.
+
+Lemma in_adel_pair {V} (x : str * V) k l : In x (adel k l) -> In x l.
+Proof.
+  induction l as [|[k0 v0] r IH]; cbn [adel]; [tauto|]. destruct (str_eqb k k0); [now right|].
+  intros [H|H]; [now left|right; now apply IH].
+Qed.
+
+Lemma in_del_str x k l : In x (del_str k l) -> In x l.
+Proof.
+  induction l as [|y r IH]; cbn [del_str]; [tauto|]. destruct (str_eqb k y); [now right|].
+  intros [H|H]; [now left|right; now apply IH].
+Qed.
+
+Lemma ls_dec_good t tp : (forall t' n, In (t', n) tp -> goodt t') -> forall t' n, In (t', n) (ls_dec t tp) -> goodt t'.
+Proof.
+  intros H t' n Hin. unfold ls_dec in Hin. destruct (aget t tp) as [c|] eqn:Hg; [|now apply (H t' n)].
+  destruct (c <=? 1).
+  - apply in_adel_pair in Hin. now apply (H t' n).
+  - apply in_aset_pair_q in Hin as [E|Hin]; [|now apply (H t' n)]. injection E as -> _. apply aget_In in Hg. now apply (H t c).
+Qed.
+
+Lemma ls_dec_all_good keys : forall tp, (forall t' n, In (t', n) tp -> goodt t') ->
+  forall t' n, In (t', n) (fst (ls_dec_all keys tp)) -> goodt t'.
+Proof.
+  induction keys as [|t r IH]; intros tp H t' n Hin; cbn [ls_dec_all] in Hin; [now apply (H t' n)|].
+  destruct (ls_dec_all r (ls_dec t tp)) as [tp'' rm] eqn:Hd. cbn [fst] in Hin.
+  apply (IH (ls_dec t tp) (ls_dec_good t tp H) t' n). now rewrite Hd.
+Qed.
+
+Lemma ls_dec_all_rm keys : forall tp x, In x (snd (ls_dec_all keys tp)) -> In x keys.
+Proof.
+  induction keys as [|t r IH]; intros tp x Hin; cbn [ls_dec_all] in Hin; [destruct Hin|].
+  destruct (ls_dec_all r (ls_dec t tp)) as [tp'' rm] eqn:Hd. cbn [snd] in Hin.
+  destruct (ahas t (ls_dec t tp)).
+  - right. apply (IH (ls_dec t tp)). now rewrite Hd.
+  - destruct Hin as [<-|Hin]; [now left|right]. apply (IH (ls_dec t tp)). now rewrite Hd.
+Qed.
+
+Lemma keys_of_client_good c ix : (forall c' keys, In (c', keys) ix -> forall t, In t keys -> goodt t) ->
+  forall t, In t (keys_of_client c ix) -> goodt t.
+Proof.
+  intros H t Ht. unfold keys_of_client in Ht. destruct (aget c ix) as [k|] eqn:Hg; [|destruct Ht].
+  apply aget_In in Hg. now apply (H c k).
+Qed.
+
+Lemma goodt_unsub t : goodt t -> marshal_ok (EUnsub t) = true.
+Proof. now intros [H _]. Qed.
+
+Lemma lcore_set_queue q s : lcore (set_queue q s) = lcore s.
+Proof. unfold set_queue. destruct (a_peer s); reflexivity. Qed.
+
+Lemma lcore_hello_tail (fo : bool) next X :
+  lcore (let s3 := match a_peer X with Some p2 => set_queue (eq_set_read next (p_q p2)) X | None => X end in
+         if fo then s3
+         else match a_peer s3 with
+              | Some p3 => set_stream true [] [] (set_queue (eq_set_closed false (p_q p3)) s3)
+              | None => s3
+              end) = lcore X.
+Proof.
+  cbv zeta. destruct (a_peer X) as [p2|] eqn:Hp.
+  - destruct fo; [apply lcore_set_queue|]. rewrite (set_queue_some _ _ p2 Hp). sfields. unfold set_queue. sfields. reflexivity.
+  - destruct fo; [reflexivity|]. now rewrite Hp.
+Qed.
+
+Lemma LT_reconnect mode order s : LT s -> LT (fq_reconnect mode order s).
+Proof.
+  intros H. unfold fq_reconnect.
+  assert (Hc : LT (fq_cut s)) by (apply LT_lcore with (s := s); [now rewrite lcore_cut|exact H]).
+  destruct (a_peer (fq_cut s)) as [p|] eqn:Hp; [|exact Hc].
+  destruct mode; try exact Hc.
+  all: destruct (server_hello (p_sid p) (fq_cut s)) as [[[clean next] s1]|] eqn:Hsh; [|exact Hc].
+  all: assert (H1 : LT s1 /\ lcore s1 = lcore (fq_cut s))
+         by (unfold server_hello in Hsh; destruct (fb_peer (fq_cut s)); [|discriminate];
+             destruct (fb_sess (fq_cut s)) as [se|]; [destruct (fs_id se =? p_sid p)|];
+             injection Hsh as _ _ <-; (split; [apply LT_lcore with (s := fq_cut s); [reflexivity|exact Hc]|reflexivity])).
+  all: destruct H1 as [H1 Hl1]; try exact H1.
+  all: match goal with
+       | |- LT (match a_peer ?X with _ => _ end) => idtac
+       | |- LT ?Y => idtac
+       end.
+  - (* HsOk *)
+    match goal with |- LT ?Y => apply LT_lcore with (s := if clean then emit_list (resync_events s1 order)
+        (set_peer (Some {| p_sid := p_sid p; p_q := eq_clear (p_q p) |}) (a_sidctr s1) (a_epoch s1 + 1) (emitted s1) s1) else s1) end.
+    + symmetry. apply (lcore_hello_tail false).
+    + destruct clean; [|exact H1]. apply LT_emit_list; [exact H1|].
+      intros e He. unfold resync_events in He. destruct H1 as (_ & G2 & G3 & _).
+      apply in_app_or in He as [He|He]; revert e He; apply resolve_marshal.
+      * intros e He. unfold resync_subs in He. apply in_map_iff in He as ([t n] & <- & Hin). cbn [fst].
+        destruct (G2 t n Hin) as [_ Hg]. destruct (split_topic t). exact Hg.
+      * intros e He. unfold resync_msgs in He. apply in_map_iff in He as (m & <- & Hin). exact (G3 m Hin).
+  - (* HsFailOpen *)
+    match goal with |- LT ?Y => apply LT_lcore with (s := if clean then emit_list (resync_events s1 order)
+        (set_peer (Some {| p_sid := p_sid p; p_q := eq_clear (p_q p) |}) (a_sidctr s1) (a_epoch s1 + 1) (emitted s1) s1) else s1) end.
+    + symmetry. apply (lcore_hello_tail true).
+    + destruct clean; [|exact H1]. apply LT_emit_list; [exact H1|].
+      intros e He. unfold resync_events in He. destruct H1 as (_ & G2 & G3 & _).
+      apply in_app_or in He as [He|He]; revert e He; apply resolve_marshal.
+      * intros e He. unfold resync_subs in He. apply in_map_iff in He as ([t n] & <- & Hin). cbn [fst].
+        destruct (G2 t n Hin) as [_ Hg]. destruct (split_topic t). exact Hg.
+      * intros e He. unfold resync_msgs in He. apply in_map_iff in He as (m & <- & Hin). exact (G3 m Hin).
+Qed.
+
+Lemma LT_step s ev order : LT s -> fqev_unmarshallable ev = false -> LT (fq_step s ev order).
+Proof.
+  intros H Hok. destruct ev; cbn [fq_step fqev_unmarshallable] in *.
+  - (* QSub *)
+    apply orb_false_iff in Hok as [Hok Hok3]. apply orb_false_iff in Hok as [Hok1 Hok2].
+    apply negb_false_iff in Hok1, Hok2, Hok3.
+    assert (Hgood : goodt (fed_full_topic share filter)) by (split; assumption).
+    destruct H as (H1 & H2 & H3 & H4).
+    unfold ls_subscribe. destruct (mem_str (fed_full_topic share filter) (keys_of_client c (a_index s))).
+    + exact (conj H1 (conj H2 (conj H3 H4))).
+    + assert (HI : forall c' keys, In (c', keys) (aset c (keys_of_client c (a_index s) ++ [fed_full_topic share filter]) (a_index s)) ->
+                   forall t, In t keys -> goodt t).
+      { intros c' keys Hin t Ht. apply in_aset_pair_q in Hin as [E|Hin]; [|now apply (H1 c' keys)].
+        injection E as _ ->. apply in_app_or in Ht as [Ht|[<-|[]]]; [now apply (keys_of_client_good c (a_index s) H1)|exact Hgood]. }
+      assert (HT : forall n0 t n, In (t, n) (aset (fed_full_topic share filter) n0 (a_topics s)) -> goodt t).
+      { intros n0 t n Hin. apply in_aset_pair_q in Hin as [E|Hin]; [injection E as -> _; exact Hgood|now apply (H2 t n)]. }
+      match goal with |- LT (if ?b then _ else _) => destruct b end; [apply LT_emit1; [|exact Hok1]|].
+      all: unfold LT; sfields; (split; [exact HI|split; [apply HT|split; [exact H3|exact H4]]]).
+  - (* QUnsub *)
+    apply negb_false_iff in Hok. cbn [marshal_ok] in Hok.
+    destruct H as (H1 & H2 & H3 & H4). unfold ls_unsubscribe.
+    destruct (aget c (a_index s)) as [keys|] eqn:Hk; [|exact (conj H1 (conj H2 (conj H3 H4)))].
+    destruct (mem_str topic keys); [|exact (conj H1 (conj H2 (conj H3 H4)))].
+    assert (HI : forall c' k', In (c', k') (match del_str topic keys with [] => adel c (a_index s) | _ => aset c (del_str topic keys) (a_index s) end) ->
+                 forall t, In t k' -> goodt t).
+    { intros c' k' Hin t Ht. destruct (del_str topic keys) as [|x r] eqn:Hd.
+      - apply in_adel_pair in Hin. now apply (H1 c' k').
+      - apply in_aset_pair_q in Hin as [E|Hin]; [|now apply (H1 c' k')]. injection E as _ ->. rewrite <- Hd in Ht. apply in_del_str in Ht. apply aget_In in Hk. now apply (H1 c keys). }
+    match goal with |- LT (if ?b then _ else _) => destruct b end; [apply LT_emit1; [|exact Hok]|].
+    all: unfold LT; sfields; (split; [exact HI|split; [apply ls_dec_good; exact H2|split; [exact H3|exact H4]]]).
+  - (* QTerm *)
+    destruct H as (H1 & H2 & H3 & H4). unfold ls_unsubscribe_all.
+    destruct (ls_dec_all (keys_of_client c (a_index s)) (a_topics s)) as [tp' rm] eqn:Hd.
+    apply LT_emit_list.
+    + unfold LT. sfields. split; [intros c' k' Hin; apply in_adel_pair in Hin; now apply (H1 c' k')|].
+      split; [|split; [exact H3|exact H4]].
+      intros t n Hin. apply (ls_dec_all_good (keys_of_client c (a_index s)) (a_topics s) H2 t n). now rewrite Hd.
+    + apply resolve_marshal. intros e He. apply in_map_iff in He as (t & <- & Ht). apply goodt_unsub.
+      apply (keys_of_client_good c (a_index s) H1). apply (ls_dec_all_rm _ (a_topics s)). now rewrite Hd.
+  - (* QMsg *)
+    apply LT_emit1; [exact H|]. apply negb_false_iff in Hok. exact Hok.
+  - apply LT_lcore with (s := s); [now rewrite lcore_send|exact H].
+  - apply LT_lcore with (s := s); [now rewrite lcore_deliver|exact H].
+  - apply LT_lcore with (s := s); [now rewrite lcore_ack_deliver|exact H].
+  - apply LT_lcore with (s := s); [now rewrite lcore_cut|exact H].
+  - now apply LT_reconnect.
+  - apply LT_lcore with (s := s); [now rewrite lcore_drain|exact H].
+  - destruct (fb_peer s); [|exact H]. apply LT_lcore with (s := s); [|exact H]. rewrite lcore_cut. reflexivity.
+  - exact H.
+  - destruct (a_peer s); [|exact H]. apply LT_lcore with (s := s); [|exact H]. pose proof (lcore_cut s) as Hc. unfold lcore in *. sfields. symmetry. exact Hc.
+  - destruct (a_peer s); exact H.
+Qed.
+
+Lemma LT_init ret : (forall m, In m ret -> marshal_ok (EMsg m) = true) -> LT (fq_init ret).
+Proof. intros H. unfold LT, fq_init. sfields. split; [intros c k []|]. split; [intros t n []|]. split; [exact H|intros t []]. Qed.
+
+Lemma LT_run evs : forall s orders, LT s -> existsb fqev_unmarshallable evs = false -> LT (fq_run s evs orders).
+Proof.
+  induction evs as [|ev r IH]; intros s orders H Hk; cbn [fq_run]; [exact H|].
+  cbn [existsb] in Hk. apply orb_false_iff in Hk as [Hk1 Hk2]. apply IH; [now apply LT_step|exact Hk2].
+Qed.
+
+(* ---- the fault-free suffix ---- *)
+Lemma hello_tail_shape next X p2 :
+  a_peer X = Some p2 ->
+  let s3 := match a_peer X with Some p2 => set_queue (eq_set_read next (p_q p2)) X | None => X end in
+  let s4 := match a_peer s3 with
+            | Some p3 => set_stream true [] [] (set_queue (eq_set_closed false (p_q p3)) s3)
+            | None => s3
+            end in
+  st_up s4 = true /\ c2s s4 = [] /\ s2c s4 = [] /\ exists p', a_peer s4 = Some p' /\ evq_closed (p_q p') = false.
+Proof.
+  intros Hp. cbv zeta. rewrite Hp, (set_queue_some _ _ p2 Hp). sfields. unfold set_queue. sfields.
+  repeat split. eexists. split; reflexivity.
+Qed.
+
+Lemma reconnect_ok_shape order s p :
+  a_peer s = Some p -> fb_peer s = true ->
+  let s' := fq_reconnect HsOk order s in
+  st_up s' = true /\ c2s s' = [] /\ s2c s' = [] /\ exists p', a_peer s' = Some p' /\ evq_closed (p_q p') = false.
+Proof.
+  intros Hp Hbp. cbv zeta. unfold fq_reconnect.
+  destruct (kcore_cut s) as (Hk & _ & _). unfold kcore in Hk. injection Hk as Hk1 Hk2 _ _.
+  rewrite Hp in Hk1. destruct (a_peer (fq_cut s)) as [p0|] eqn:Hp0; [|discriminate].
+  unfold server_hello. rewrite Hk2, Hbp.
+  destruct (fb_sess (fq_cut s)) as [se|]; [destruct (fs_id se =? p_sid p0)|].
+  - now apply (hello_tail_shape _ _ p0).
+  - match goal with |- context [emit_list ?evs ?X] => destruct (kcore_emit_list evs X) as (Hke & _ & _) end.
+    apply (f_equal (fun t => fst (fst (fst t)))) in Hke. unfold kcore in Hke. cbn [fst] in Hke. sfields.
+    match goal with |- context [emit_list ?evs ?X] =>
+      assert (Hex : exists p2, a_peer (emit_list evs X) = Some p2)
+        by (destruct (a_peer (emit_list evs X)) as [p2|]; [now exists p2|discriminate]) end.
+    destruct Hex as [p2 Hp2]. now apply (hello_tail_shape _ _ p2).
+  - match goal with |- context [emit_list ?evs ?X] => destruct (kcore_emit_list evs X) as (Hke & _ & _) end.
+    apply (f_equal (fun t => fst (fst (fst t)))) in Hke. unfold kcore in Hke. cbn [fst] in Hke. sfields.
+    match goal with |- context [emit_list ?evs ?X] =>
+      assert (Hex : exists p2, a_peer (emit_list evs X) = Some p2)
+        by (destruct (a_peer (emit_list evs X)) as [p2|]; [now exists p2|discriminate]) end.
+    destruct Hex as [p2 Hp2]. now apply (hello_tail_shape _ _ p2).
+Qed.
+
+Lemma fq_run_app a : forall s b orders,
+  fq_run s (a ++ b) orders = fq_run (fq_run s a orders) b (skipn (length a) orders).
+Proof.
+  induction a as [|ev r IH]; intros s b orders; cbn [app fq_run length skipn]; [reflexivity|].
+  rewrite IH. destruct orders; cbn [tl hd skipn]; [|reflexivity]. now destruct (length r).
+Qed.
+
+(* after ANY schedule (without the two known findings), once both nodes know each other,
+   the handshake succeeds and both loops run until idle: the stream is idle and everything
+   A emitted in the current epoch has been applied by B *)
+Lemma fq_stable_complete ret evs orders :
+  kf_hello_reply_lost evs = false -> kf_event_not_utf8 ret evs = false ->
+  let s := fq_run (fq_init ret) (evs ++ EPILOGUE) orders in
+  fq_idle s = true /\ proj (a_epoch s) (applied s) = proj (a_epoch s) (emitted s).
+Proof.
+  intros Hk1 Hk2. cbv zeta. rewrite fq_run_app.
+  set (s0 := fq_run (fq_init ret) evs orders). set (os := skipn (length evs) orders).
+  assert (HI0 : INV s0) by (apply run_inv; [apply INV_init|exact Hk1]).
+  unfold kf_event_not_utf8 in Hk2. apply orb_false_iff in Hk2 as [Hr He].
+  assert (HL0 : LT s0).
+  { apply LT_run; [|exact He]. apply LT_init. intros m Hm.
+    destruct (marshal_ok (EMsg m)) eqn:E; [reflexivity|]. exfalso.
+    assert (existsb (fun m => negb (marshal_ok (EMsg m))) ret = true) by (apply existsb_exists; exists m; split; [exact Hm|now rewrite E]).
+    congruence. }
+  unfold EPILOGUE. cbn [fq_run].
+  (* QPeerJoin *)
+  set (s1 := fq_step s0 QPeerJoin (hd [] os)).
+  assert (HI1 : INV s1) by (apply INV_peer_join; exact HI0).
+  assert (HL1 : LT s1) by (apply LT_step; [exact HL0|reflexivity]).
+  assert (Hb1 : fb_peer s1 = true) by reflexivity.
+  (* QJoinPeer *)
+  set (s2 := fq_step s1 QJoinPeer (hd [] (tl os))).
+  assert (HL2 : LT s2) by (apply LT_step; [exact HL1|reflexivity]).
+  assert (H2 : INV s2 /\ fb_peer s2 = true /\ exists p, a_peer s2 = Some p).
+  { subst s2. cbn [fq_step]. destruct (a_peer s1) as [p|] eqn:Hp.
+    - split; [exact HI1|]. split; [exact Hb1|]. now exists p.
+    - split; [now apply INV_join_peer|]. split; [exact Hb1|]. eexists. reflexivity. }
+  destruct H2 as (HI2 & Hb2 & p2 & Hp2).
+  (* QReconnect HsOk *)
+  set (s3 := fq_step s2 (QReconnect HsOk) (hd [] (tl (tl os)))).
+  assert (HL3 : LT s3) by (apply LT_step; [exact HL2|reflexivity]).
+  assert (HI3 : INV s3) by (subst s3; cbn [fq_step]; apply INV_reconnect; [exact HI2|discriminate]).
+  destruct (reconnect_ok_shape (hd [] (tl (tl os))) s2 p2 Hp2 Hb2) as (Hu3 & Hc3 & Hs3 & p3 & Hp3 & Ho3).
+  assert (HD3 : DS s3).
+  { split; [exact HI3|]. split; [exact Hu3|]. split; [exact Hc3|]. split; [exact Hs3|].
+    split; [now exists p3|]. now destruct HL3 as (_ & _ & _ & H4). }
+  (* QDrain *)
+  cbn [fq_step]. destruct (DS_drain s3 HD3) as [HD4 Hidle]. fold s3.
+  split; [exact Hidle|]. apply (DS_idle_complete _ HD4 Hidle).
+Qed.
+
+(* the two side conditions of the completeness statement are needed *)
+Definition ex_bad_corr : msg :=
+  {| m_dup := false; m_qos := 1; m_retained := false; m_topic := [97]; m_payload := [49]; m_pid := 0;
+     m_ctype := []; m_corr := [255]; m_expiry := 0; m_pfmt := 0; m_resp := []; m_subids := []; m_uprops := [] |}.
+
+Lemma fq_stable_complete_refuted :
+  (exists ret evs orders,
+     let s := fq_run (fq_init ret) (evs ++ EPILOGUE) orders in
+     fq_idle s = true /\ view_of (fb_fed s) = Some [] /\ local_of s <> []) /\
+  (exists ret evs orders, fq_idle (fq_run (fq_init ret) (evs ++ EPILOGUE) orders) = false).
+Proof.
+  split.
+  - exists [], [QSub [99] [] [97]; QPeerJoin; QJoinPeer; QReconnect HsLostResp], []. vm_compute.
+    split; [reflexivity|]. split; [reflexivity|discriminate].
+  - exists [], [QPeerJoin; QJoinPeer; QReconnect HsOk; QMsg ex_bad_corr], []. vm_compute. reflexivity.
+Qed.
